@@ -250,6 +250,14 @@ func sortedKeys[V any](m map[string]V) []string {
 	return ks
 }
 
+// deep is the size multiplier of the "deep" configuration of the thorough tier.
+func deep(conf string) int {
+	if conf == "deep" {
+		return 2
+	}
+	return 1
+}
+
 func pick[T any](rng *rand.Rand, xs []T) T { return xs[rng.Intn(len(xs))] }
 
 func jsonClone[T any](v T) T {
